@@ -107,6 +107,10 @@ func (p *Path) intrinsic(caller *frame, fn *ssa.Function, name string, args []Va
 			}
 		}
 	case "math.Floor", "math.Ceil", "math.Trunc", "math.Round", "math.RoundToEven":
+		if x, ok := args[0].(XF); ok {
+			mode := map[string]int{"math.RoundToEven": 0, "math.Round": 1, "math.Ceil": 2, "math.Floor": 3, "math.Trunc": 4}[name]
+			return p.xfToIntegral(x, mode), true
+		}
 		if f, ok := args[0].(*smt.Term); ok && f.Sort.K == smt.SFP {
 			mode := map[string]int{"math.RoundToEven": 0, "math.Round": 1, "math.Ceil": 2, "math.Floor": 3, "math.Trunc": 4}[name]
 			return smt.FPRound(f, mode), true
@@ -198,6 +202,11 @@ func (p *Path) intrinsic(caller *frame, fn *ssa.Function, name string, args []Va
 	case "encoding/json.Marshal", "encoding/json.MarshalIndent":
 		p.lastJSON = args[0]
 		p.jsonCalls++
+		// encoding/json refuses NaN and +-Inf (UnsupportedValueError)
+		if bad := jsonBadFloat(args[0], 0); !bad.IsFalse() && p.branch(bad) {
+			var cell Value = Struct{mkStr("json: unsupported value: NaN or Inf")}
+			return Tuple{[]Value(nil), Iface{T: types.NewPointer(p.in.errorsErrorString), V: &cell}}, true
+		}
 		return Tuple{[]Value{smt.ConstBV(8, 'n'), smt.ConstBV(8, 'u'), smt.ConstBV(8, 'l'), smt.ConstBV(8, 'l')}, Iface{}}, true
 	case "(*os.File).Write":
 		// output to the process's real stdout/stderr is discarded (never a subject)
@@ -715,4 +724,45 @@ func (p *Path) errorsIs(caller *frame, err, target Iface, depth int) bool {
 			return false
 		}
 	}
+}
+
+// jsonBadFloat is the condition under which some float64 reachable from v
+// (through structs, arrays, slices, interfaces and pointers; not through
+// values with their own MarshalJSON, which the captured document does not
+// expand) is NaN or infinite.
+func jsonBadFloat(v Value, depth int) *smt.Term {
+	if depth > 6 {
+		return smt.False
+	}
+	switch v := v.(type) {
+	case *smt.Term:
+		if v.Sort.K == smt.SFP {
+			return smt.OrN(smt.FPIsNaN(v), smt.FPEq(v, smt.ConstFP(math.Inf(1))), smt.FPEq(v, smt.ConstFP(math.Inf(-1))))
+		}
+	case Struct:
+		r := smt.False
+		for _, f := range v {
+			r = smt.Or(r, jsonBadFloat(f, depth+1))
+		}
+		return r
+	case Array:
+		r := smt.False
+		for _, f := range v {
+			r = smt.Or(r, jsonBadFloat(f, depth+1))
+		}
+		return r
+	case []Value:
+		r := smt.False
+		for _, f := range v {
+			r = smt.Or(r, jsonBadFloat(f, depth+1))
+		}
+		return r
+	case Iface:
+		if v.T != nil {
+			if _, named := v.T.(*types.Pointer); !named {
+				return jsonBadFloat(v.V, depth+1)
+			}
+		}
+	}
+	return smt.False
 }
